@@ -107,18 +107,23 @@ def discharge(obls, axioms, timeout_ms=10000, canary_ms=1500, ground_sorts=(), s
         axioms = [] if getattr(o, 'isolated', False) else world_axioms
         s = Solver(); s.set(timeout=canary_ms if o.canary else timeout_ms)
         s.add(axioms); s.add(o.hyps); s.add(Not(o.goal))
-        t = time.time(); r = s.check(); o.secs = time.time() - t; o.backend = 'z3-' + get_version_string()
+        t = time.time()
+        try: r = s.check()
+        except (Z3Exception, MemoryError) as ex:          # out of memory / internal error of the solver: undecided, never a verdict
+            r = unknown; o.reason = f'solver exception: {str(ex)[:120]}'
+        o.secs = time.time() - t; o.backend = 'z3-' + get_version_string()
         if o.canary:
             o.status = 'vacuous' if r == unsat else 'ok'
             continue
         if r == unsat: o.status = 'proved'
         elif r == sat: o.status = 'refuted'; o.model = s.model(); o.universe = None
         else:
-            o.status = 'undecided'; o.reason = s.reason_unknown()
+            o.status = 'undecided'; o.reason = getattr(o, 'reason', None) or s.reason_unknown()
             for seed in ((7, 23) if reseed else ()):              # quantifier instantiation is seed-sensitive: two more attempts before other back ends
                 s2 = Solver(); s2.set(timeout=timeout_ms, random_seed=seed); s2.set('smt.random_seed', seed)
                 s2.add(axioms); s2.add(o.hyps); s2.add(Not(o.goal))
-                r2 = s2.check()
+                try: r2 = s2.check()
+                except (Z3Exception, MemoryError): r2 = unknown
                 if r2 == unsat: o.status = 'proved'; break
                 if r2 == sat: o.status = 'refuted'; o.model = s2.model(); o.universe = None; break
             if o.status != 'undecided':
